@@ -591,6 +591,25 @@ func descrLaw(a c20Axis, ds []obsBin) string {
 	return ""
 }
 
+// implBin1: the bin in which the implementation counts a single element at position x (-1: none found)
+func implBin1(a c20Axis, x c20Num) int {
+	l := value.NewList(c20Elem{X: x, Y: c20I(0), V: c20I(1)}.Value())
+	v, err := evalExpr(c20Expr1, []string{"l", "s", "z", "c"}, append([]value.Value{l}, axisArgs(a)...)...)
+	if err != nil {
+		return -1
+	}
+	o, err := readObs1(v)
+	if err != nil {
+		return -1
+	}
+	for i, f := range o.Values {
+		if f == 1 {
+			return i
+		}
+	}
+	return -1
+}
+
 type lawFail struct{ law, class, what, expected, observed string }
 
 func ratStr(r *big.Rat) string { return r.RatString() }
@@ -629,11 +648,12 @@ func oracle1(c *c20Case, o *obs1) *lawFail {
 		}
 		for i := range exp {
 			if exp[i].Cmp(rat(o.Values[i])) != 0 {
-				// blame the first element that belongs to bin i or that is missing from it
-				cls := "interior"
+				// blame the first element the implementation counts in another bin than the one whose
+				// description admits it (asked from the implementation itself, one element at a time)
+				cls := "any"
 				for _, e := range c.Elems {
 					in := binsContaining(o.Descr, e.X.F())
-					if in[0] == i {
+					if got := implBin1(a, e.X); got >= 0 && got != in[0] {
 						cls = posClass(a, e.X.F())
 						break
 					}
@@ -688,10 +708,14 @@ func oracle2(c *c20Case, o *obs2) *lawFail {
 		for i := range exp {
 			for j := range exp[i] {
 				if exp[i][j].Cmp(rat(o.Rows[i][j])) != 0 {
-					cls := "interior"
+					cls := "any"
 					for k, e := range c.Elems {
-						if where[k] == (at{i, j}) {
-							cls = posClass(c.X, e.X.F()) + "," + posClass(c.Y, e.Y.F())
+						if gx := implBin1(c.X, e.X); gx >= 0 && gx != where[k].i {
+							cls = "x:" + posClass(c.X, e.X.F())
+							break
+						}
+						if gy := implBin1(c.Y, e.Y); gy >= 0 && gy != where[k].j {
+							cls = "y:" + posClass(c.Y, e.Y.F())
 							break
 						}
 					}
@@ -1300,11 +1324,11 @@ func c20Corpus() []*c20Case {
 }
 
 func cmdC20(seed int64, tier, outDir string) {
-	n1, n2, nm := 1000, 500, 100
+	n1, n2, nm := 600, 300, 60
 	if tier == "thorough" {
 		n1, n2, nm = 40000, 18000, 2000
 	}
-	perShard := 101 // 16 shards in the quick tier: one per worker of tools/check.py
+	perShard := 61 // 16 shards in the quick tier: one per worker of tools/check.py
 	if tier == "thorough" {
 		perShard = 400
 	}
